@@ -209,58 +209,69 @@ def fnc4 (s : St) : St :=
 def emit (s : St) (b : Nat) : St :=
   { s with result := (if s.shiftUpper = s.upper then b else b + 128) :: s.result, shiftUpper := false }
 
-/-- one iteration for the decoded `code` (after `rawCodes = append(…)`): returns the state and `done` -/
-def step (gs1 : Bool) (s : St) (code : Nat) : Res (St × Bool) :=
-  let unshift := s.nextShifted
+/-- head of an iteration: `unshift := isNextShifted; isNextShifted = false; lastCode = code; code = …`, then (unless
+    STOP) `lastCharacterWasPrintable = true; multiplier++; checksumTotal += multiplier * code` -/
+def stepPre (s : St) (code : Nat) : St :=
   let s := { s with nextShifted := false, lastCode := s.code, code := code }
   let s := if code ≠ 106 then { s with lastPrintable := true } else s
-  let s := if code ≠ 106 then { s with mult := s.mult + 1, total := s.total + (s.mult + 1) * code } else s
+  if code ≠ 106 then { s with mult := s.mult + 1, total := s.total + (s.mult + 1) * code } else s
+
+/-- `if code != CODE_STOP { lastCharacterWasPrintable = false }` at the head of each non-printable branch -/
+def np (s : St) (code : Nat) : St := if code ≠ 106 then { s with lastPrintable := false } else s
+
+/-- `switch codeSet { case CODE_A: … case CODE_B: … case CODE_C: … }`: the new state and `done` -/
+def stepBody (gs1 : Bool) (s : St) (code : Nat) : St × Bool :=
+  if s.codeSet = 101 then
+    if code < 64 then (emit s (32 + code), false)
+    else if code < 96 then
+      ({ s with result := (if s.shiftUpper = s.upper then code - 64 else code + 64) :: s.result,
+                shiftUpper := false }, false)
+    else
+      let s := np s code
+      if code = 102 then (fnc1 gs1 s, false)
+      else if code = 97 then ({ s with symMod := 4 }, false)
+      else if code = 96 then (s, false)
+      else if code = 101 then (fnc4 s, false)
+      else if code = 98 then ({ s with nextShifted := true, codeSet := 100 }, false)
+      else if code = 100 then ({ s with codeSet := 100 }, false)
+      else if code = 99 then ({ s with codeSet := 99 }, false)
+      else if code = 106 then (s, true)
+      else (s, false)
+  else if s.codeSet = 100 then
+    if code < 96 then (emit s (32 + code), false)
+    else
+      let s := np s code
+      if code = 102 then (fnc1 gs1 s, false)
+      else if code = 97 then ({ s with symMod := 4 }, false)
+      else if code = 96 then (s, false)
+      else if code = 100 then (fnc4 s, false)
+      else if code = 98 then ({ s with nextShifted := true, codeSet := 101 }, false)
+      else if code = 101 then ({ s with codeSet := 101 }, false)
+      else if code = 99 then ({ s with codeSet := 99 }, false)
+      else if code = 106 then (s, true)
+      else (s, false)
+  else if s.codeSet = 99 then
+    if code < 100 then ({ s with result := (48 + code % 10) :: (48 + code / 10) :: s.result }, false)
+    else
+      let s := np s code
+      if code = 102 then (fnc1 gs1 s, false)
+      else if code = 101 then ({ s with codeSet := 101 }, false)
+      else if code = 100 then ({ s with codeSet := 100 }, false)
+      else if code = 106 then (s, true)
+      else (s, false)
+  else (s, false)
+
+/-- "Unshift back to another code set if we were shifted" -/
+def stepPost (unshift : Bool) (s : St) : St :=
+  if unshift then { s with codeSet := if s.codeSet = 101 then 100 else 101 } else s
+
+/-- one iteration for the decoded `code` (after `rawCodes = append(…)`): returns the state and `done`.
+    (The Go text tests for an illegal start code after the checksum update; the update is dropped with the error.) -/
+def step (gs1 : Bool) (s : St) (code : Nat) : Res (St × Bool) :=
   if code = 103 ∨ code = 104 ∨ code = 105 then .error .format
   else
-    let np (s : St) : St := if code ≠ 106 then { s with lastPrintable := false } else s
-    let r : St × Bool :=
-      if s.codeSet = 101 then
-        if code < 64 then (emit s (32 + code), false)
-        else if code < 96 then
-          ({ s with result := (if s.shiftUpper = s.upper then code - 64 else code + 64) :: s.result,
-                    shiftUpper := false }, false)
-        else
-          let s := np s
-          if code = 102 then (fnc1 gs1 s, false)
-          else if code = 97 then ({ s with symMod := 4 }, false)
-          else if code = 96 then (s, false)
-          else if code = 101 then (fnc4 s, false)
-          else if code = 98 then ({ s with nextShifted := true, codeSet := 100 }, false)
-          else if code = 100 then ({ s with codeSet := 100 }, false)
-          else if code = 99 then ({ s with codeSet := 99 }, false)
-          else if code = 106 then (s, true)
-          else (s, false)
-      else if s.codeSet = 100 then
-        if code < 96 then (emit s (32 + code), false)
-        else
-          let s := np s
-          if code = 102 then (fnc1 gs1 s, false)
-          else if code = 97 then ({ s with symMod := 4 }, false)
-          else if code = 96 then (s, false)
-          else if code = 100 then (fnc4 s, false)
-          else if code = 98 then ({ s with nextShifted := true, codeSet := 101 }, false)
-          else if code = 101 then ({ s with codeSet := 101 }, false)
-          else if code = 99 then ({ s with codeSet := 99 }, false)
-          else if code = 106 then (s, true)
-          else (s, false)
-      else if s.codeSet = 99 then
-        if code < 100 then ({ s with result := (48 + code % 10) :: (48 + code / 10) :: s.result }, false)
-        else
-          let s := np s
-          if code = 102 then (fnc1 gs1 s, false)
-          else if code = 101 then ({ s with codeSet := 101 }, false)
-          else if code = 100 then ({ s with codeSet := 100 }, false)
-          else if code = 106 then (s, true)
-          else (s, false)
-      else (s, false)
-    let s' := r.1
-    let s' := if unshift then { s' with codeSet := if s'.codeSet = 101 then 100 else 101 } else s'
-    .ok (s', r.2)
+    let r := stepBody gs1 (stepPre s code) code
+    .ok (stepPost s.nextShifted r.1, r.2)
 
 /-- loop state outside `St`: rawCodes (reversed), lastStart, nextStart -/
 structure Pos where
